@@ -66,7 +66,12 @@ def module_files(proj):
     kind = m["kind"]
     base = "/usr/lib/py" if kind == "System" else root
     ext = m["ext"]
-    if m["init"]:
+    if m.get("pext"):
+      # pytype's own extensions library is analysed even when it is a
+      # System/Builtin module (pytype_runner.get_module_action)
+      name = "pytype_extensions.m%d" % i
+      path = "%s/pytype_extensions/m%d.%s" % (base, i, ext)
+    elif m["init"]:
       name = "pkg%d" % i
       path = "%s/pkg%d/__init__.%s" % (base, i, ext)
     elif m["inpkg"]:
@@ -550,7 +555,8 @@ def module_variants(n, rich):
   more = [dict(kind="System", ext="py", init=False, inpkg=False),
           dict(kind="Local", ext="pyi", init=False, inpkg=False),
           dict(kind="Local", ext="py", init=True, inpkg=False),
-          dict(kind="Local", ext="py", init=False, inpkg=True)]
+          dict(kind="Local", ext="py", init=False, inpkg=True),
+          dict(kind="System", ext="py", init=False, inpkg=False, pext=True)]
   opts = basic + (more if rich else more[:2])
   return itertools.product(opts, repeat=n)
 
@@ -603,7 +609,8 @@ def project_strategy():
       ext = draw(st.sampled_from(["py", "py", "py", "pyi"]))
       lay = draw(st.sampled_from(["plain", "plain", "init", "inpkg"]))
       mods.append(dict(kind=kind, ext=ext, init=lay == "init",
-                       inpkg=lay == "inpkg"))
+                       inpkg=lay == "inpkg",
+                       pext=(kind == "System" and draw(st.integers(0, 2)) == 0)))
     srcs = [i for i, m in enumerate(mods)
             if m["ext"] == "py" and m["kind"] != "System"]
     if not srcs:
